@@ -57,6 +57,7 @@ package actionlint
 //@ func (*ObjectType).Merge
 //@   props C06
 //@   ensures !istype(other, "*ObjectType") ==> istype(result, "AnyType")
+//@   ensures istype(other, "*ObjectType") ==> istype(result, "*ObjectType")
 //@   ensures istype(other, "*ObjectType") && old(ty.Mapped != nil || dyn(other, "*ObjectType").Mapped != nil) ==> istype(result, "*ObjectType") && dyn(result, "*ObjectType").Mapped != nil
 //@   loop "range other.Props":
 //@     invariant old(ty.Mapped != nil || other.Mapped != nil) ==> mapped != nil
@@ -178,3 +179,12 @@ package actionlint
 //@   at_call [C06] (*RuleBase).Errorf: !istype(ty, "AnyType")
 //@ func (*RuleExpression).checkIfCondition
 //@   at_call [C06] (*RuleBase).Errorf: !istype(condTy, "AnyType")
+
+// an include element given as one expression whose type is not an object leaves the matrix open
+// (C06: nothing is known about its keys, so no property of `matrix` may be reported as undefined)
+//@ func (*ObjectType).Loose
+//@   props C06
+//@   ensures ty.Mapped != nil
+//@ func (*RuleExpression).checkMatrix
+//@   loop "range m.Include.Combinations":
+//@     body_calls [C06] (*ObjectType).Loose iff combi.Expression != nil && ty != nil && !istype(ty, "*ObjectType")
